@@ -112,3 +112,21 @@ Definition sge_spec (found : bool) (records : list (string * string)) : sge_verd
        | [] => SgeErrored                     (* no accounting at all: evicted *)
        | _ => if existsb record_failed records then SgeErrored else SgeDone
        end.
+
+(* ---- accounting text: what `sacct -n -X -j <id> -o JobID,State,ExitCode` prints for the job ----
+   job id, blanks, the state word (truncated states end in a plus sign), blanks, exit code ':' signal, then
+   anything (further columns, further lines).  None = sacct printed nothing. *)
+Record acct_line := {
+  al_jobid : chars; al_pad1 : nat; al_state : chars; al_plus : bool; al_pad2 : nat;
+  al_code : chars; al_sig : chars; al_rest : chars }.
+Definition render_line (l : acct_line) : string :=
+  str_of (al_jobid l ++ repeat " "%char (S (al_pad1 l)) ++ al_state l ++ (if al_plus l then ["+"%char] else []) ++
+          repeat " "%char (S (al_pad2 l)) ++ al_code l ++ ":"%char :: al_sig l ++ al_rest l).
+Definition nonempty (l : chars) : bool := match l with [] => false | _ => true end.
+Definition wf_line (l : acct_line) : bool :=
+  forallb is_digit (al_jobid l) && forallb is_word (al_state l) && nonempty (al_state l) &&
+  forallb is_digit (al_code l) && nonempty (al_code l) && forallb is_digit (al_sig l) && nonempty (al_sig l).
+Definition render_ans (a : option acct_line) : string := match a with None => "" | Some l => render_line l end.
+(* what the text says: the state word and the exit code *)
+Definition ans_of (a : option acct_line) : sacct_ans :=
+  match a with None => SaNone | Some l => SaLine (str_of (al_state l)) (nat_of_digits (al_code l)) end.
